@@ -154,6 +154,15 @@ CHECKS = {
             "Trusted: numpy reference (eigh-based cut-off and HOOI), tolerances of DESIGN §4.3; relations between two calls are "
             "asserted only where every eigenproblem along the reference trajectory has a spectral gap (ARPACK start vectors are "
             "not controllable).", TECH_PRODUCT, "DESIGN.md §6 C10"),
+    "C18": ("A relational invariant over PAIRS of real runs: each case runs a base (dense, silent, original labels, unscaled) and "
+            "every presentation variant - sparse holder (cp_als, cp_apr x3), every printing / verbosity setting, the same global "
+            "seed again, data scaled by 4 and 1/4, and EVERY mode relabelling of data + guess + dimorder - for cp_als, cp_apr "
+            "(mu, pdnr, pqnr), hosvd, tucker_als and gcp_opt/LBFGSB over a fixed data family, guesses and maxiters 1..3 (4); "
+            "expanded models, fits/objectives and iteration counts must agree within the tolerances of DESIGN §4.3.",
+            "Trusted: numpy references decide admissibility for cp_als/hosvd/tucker_als; for cp_apr a conditioning probe on the "
+            "real implementation (runs from starts perturbed by 1e-12) filters rounding-chaotic trajectories before a dense-vs-"
+            "sparse pair is asserted; identical-arithmetic pairs (printing, same seed) are asserted unconditionally.",
+            TECH_PRODUCT, "DESIGN.md §6 C18"),
 }
 PENDING = {f"C{i:02d}": "check not built yet in this phase (planned, see DESIGN.md §6)" for i in range(1, 21) if f"C{i:02d}" not in CHECKS}
 NOT_APPLICABLE = {}
